@@ -22,7 +22,7 @@ def alphabet(version: str, thorough: bool) -> list:
         for c in (3, 4):
             evs.append([n, c, 0, 0, 6, "d"])
             evs.append([n, c, 1, 0, 0, "a"])
-            evs.append([n, c, 1, 0, 0, "b"])
+            evs.append([n, c, 1, 0, 0, "b;c"])
             evs.append([n, c, 1, 0, 2, "a"])
     if thorough:
         evs.append([255, 255, 3, 0, 3, ""])  # id request -> placeholder
@@ -82,6 +82,16 @@ class Monitor:
                         bad("id-request-no-single-response", f"writes {out.writes}")
                 else:
                     self.model.apply(v, f)
+                    if cmd == 0 and c == 255:
+                        # "(re)creates that node": a re-presented node must be indistinguishable from the node
+                        # the same presentation creates in an empty registry (differential oracle)
+                        fresh = Session(v, reset_modules=False)
+                        fresh.line(R.enc(*f).rstrip("\n"))
+                        a = registry_view(self.s.gateway.nodes).get(n)
+                        b = registry_view(fresh.gateway.nodes).get(n)
+                        if a != b:
+                            diff = {k: (a.get(k), b.get(k)) for k in (a or {}) if (a or {}).get(k) != (b or {}).get(k)} if a and b else (a, b)
+                            bad("re-presented-node-not-recreated", f"node {n} after its presentation differs from a freshly created one: {diff}")
         else:
             cls = MissingNodeError if exp[0] == "missing_node" else MissingChildError
             attr = "node_id" if exp[0] == "missing_node" else "child_id"
